@@ -25,3 +25,31 @@ Theorem c07_iteration_order :
     HlInv pr ord l -> StronglySorted (before_in_order pr ord) (hl_entries l).
 Proof. exact @hl_sorted. Qed.
 Print Assumptions c07_iteration_order.
+
+Require Import EV.World EV.Member EV.Listen EV.Order.
+
+(* world level: on every world satisfying the order invariant OInv (every per-archetype listener
+   list and every global listener list is in the HandlerList shape with its before/after cursors,
+   priority and addition number being those recorded for the handler), the handlers a delivery
+   runs come High before Medium before Low, each class in the order the handlers were added *)
+Theorem c07_every_delivery_runs_in_priority_then_addition_order :
+  forall (w : world) (it : qitem), OInv w ->
+    StronglySorted (before_in_order (kpr w) (kord w)) (delivered_to w it).
+Proof. exact delivered_to_sorted. Qed.
+Print Assumptions c07_every_delivery_runs_in_priority_then_addition_order.
+
+(* "always": OInv (with all the other invariants: BI = AI /\ OInv) holds in every world reachable
+   through any sequence of calls - adding and removing handlers, events and component types,
+   archetypes being created and destroyed - for every handler behaviour *)
+Theorem c07_order_invariant_in_every_reachable_world :
+  forall (beh : hinfo -> logent -> N -> script) (fuel p : N) (ops : list top_all),
+    BI (fold_left (run_top_all beh) ops (world0 fuel p)).
+Proof. exact reachable_BI. Qed.
+Print Assumptions c07_order_invariant_in_every_reachable_world.
+
+(* and after every single delivery inside a flush *)
+Theorem c07_order_invariant_after_every_delivery :
+  forall (beh : hinfo -> logent -> N -> script) (it : qitem) (w : world),
+    Effects.WInv w -> HL w -> OInv w -> OInv (snd (fst (deliver_one beh it w))).
+Proof. exact deliver_one_O. Qed.
+Print Assumptions c07_order_invariant_after_every_delivery.
